@@ -60,6 +60,17 @@ Theorem C18_raising_is_wrapped : forall c tc s e,
 Proof. exact raising_is_wrapped. Qed.
 Print Assumptions C18_raising_is_wrapped.
 
+(* BaseExceptions that are not Exceptions (sys.exit, KeyboardInterrupt, GeneratorExit, user
+   subclasses of BaseException) are covered like every other kind: wrapped when handled, the function
+   marked otherwise; a raising statement is never emitted bare in an unmarked function. *)
+Theorem C18_base_exception_covered : forall c tc s e,
+  In s tc -> s_exc s = Some e -> e_base e = true ->
+  (no_xfail c = true \/ s_expected s = true -> In (IStmt (Some (e_name e)) s) (f_body (func_of c tc))) /\
+  (no_xfail c = false /\ s_expected s = false -> f_xfail (func_of c tc) = true) /\
+  (In (IStmt None s) (f_body (func_of c tc)) -> f_xfail (func_of c tc) = true).
+Proof. exact base_exception_covered. Qed.
+Print Assumptions C18_base_exception_covered.
+
 (* What must not change: statements and rendered assertions are emitted once, in order. *)
 Theorem C18_body_preserves_statements : forall c tc,
   stmts_of (f_body (func_of c tc)) = tc /\
